@@ -94,7 +94,7 @@ theorem dedupSubjects_ne_nil (l : List Filter) (h : l ≠ []) : dedupSubjects l 
     refine ⟨hm, ?_⟩
     simp only [Bool.not_eq_true', List.any_eq_false]
     intro o ho hs
-    have := isStrictSub_length _ _ hs
+    have := isStrictSub_length _ _ (Bool.and_eq_true_iff.1 hs).2
     have := hmin o ho
     omega
   rw [hnil] at this
